@@ -42,15 +42,16 @@ theorem src_budget_lt_both (side : BitVec 8) (plys : Int) (sp : search.SearchPar
     search.calculateTime side plys sp < srcClock side sp ∧ search.calculateTime side plys sp < sp.MoveTime :=
   ⟨src_budget_lt_clock side plys sp hc, src_budget_lt_movetime side plys sp hm⟩
 
-/-- … and it depends only on the mover's own clock, increment and the movetime — never on the opponent's clock or increment
-(nor on movestogo, depth, infinite) -/
+/-- … and it depends only on the mover's own clock and increment, never on the opponent's: two parameter sets that differ at most in the
+opponent's clock and increment get the same budget (everything else — movetime, movestogo, depth, infinite — is the same on both sides) -/
 theorem src_budget_ignores_opponent (side : BitVec 8) (plys : Int) (sp sp' : search.SearchParameter)
-    (hc : srcClock side sp = srcClock side sp') (hi : srcInc side sp = srcInc side sp') (hm : sp.MoveTime = sp'.MoveTime) :
+    (hc : srcClock side sp = srcClock side sp') (hi : srcInc side sp = srcInc side sp') (hm : sp.MoveTime = sp'.MoveTime)
+    (hg : sp.MovesToGo = sp'.MovesToGo) (hd : sp.Depth = sp'.Depth) (hf : sp.Infinite = sp'.Infinite) :
     search.calculateTime side plys sp = search.calculateTime side plys sp' := by
   unfold srcClock srcInc at *
   unfold search.calculateTime
   src_unfold_helpers
-  by_cases hs : (side == 1#8) = true <;> simp only [hs, if_true, if_false, Bool.false_eq_true] at * <;> simp only [hc, hi, hm]
+  by_cases hs : (side == 1#8) = true <;> simp only [hs, if_true, if_false, Bool.false_eq_true] at * <;> simp only [hc, hi, hm, hg, hd, hf]
 
 -- the hypotheses are satisfiable by a non-trivial value: 100 ms on the clock, 2 s increment (the witness of the repaired defect D4);
 -- the theorem then bounds the regenerated function's value at that point, whatever it is
